@@ -7,7 +7,7 @@ from . import vallib as V
 PROPERTY = "C03"
 DRIVER = "TraitsVerif/Driver/Val.lean"
 PROPS_MODULES = ["TraitsVerif.Props.C03"]
-TRANSLATORS = ["validate_tables"]
+TRANSLATORS = ["validate_tables", "cvalidators"]
 RULE = ("every trait type of the option grid (%d trait terms: fast classes, Base* classes, float/int Range with "
         "bounds in {None,-1,0,2} x exclude flags, Enum/Map collections, Tuple shapes, Instance/Type/This/Callable "
         "options, String, Prefix*, the legacy Trait*() handlers, some compounds) x the value lattice (%d values); "
@@ -16,6 +16,9 @@ RULE = ("every trait type of the option grid (%d trait terms: fast classes, Base
         "handler.validate (Python) - against fastAlone / fastInCompound / pyValidate; plus the descriptor "
         "fast_validate itself against descOf, the Py.Val model against CPython/numpy (kinds p, q) and seeded "
         "random nestings of Either / Tuple / Union / TraitCompound with values chosen for their members; "
+        "adaptable objects, their adapters and instances of the target class in three flavours (truthy, __bool__ "
+        "returning False, __len__ returning 0) against Instance(adapt='yes'/'default') stand-alone, as Tuple items, "
+        "below Either / Union, and (two real paths + oracle only) Supports / AdaptsTo; "
         "a case is non-trivial when some path accepted, converted or raised; distinct = distinct output line")
 TRUSTED = ["Py.Val: hand model of isinstance / == / hash / operator.index / PyFloat_AsDouble / PyComplex_AsCComplex / "
            "int->double rounding on the lattice, validated against CPython + numpy on every run (kinds p, q)",
@@ -83,6 +86,15 @@ def generate(rng, tier):
         yield "d|-|%s|" % tt
         for v in L:
             yield case_v(tt, v)
+    # Supports / AdaptsTo (BaseInstance.validate in the adapting modes + a post_setattr): no term of the Lean
+    # driver, the two real paths + oracle only
+    for tt in SUPPORTS:
+        for v in L + ADAPT_TUPLE_VALUES:
+            yield "#v|-|%s|%s" % (tt, v)
+    # adaptation inside Tuple items (alone and below Either / Union): truthy and falsy adaptees / adapters
+    for tt in ADAPT_TUPLES:
+        for v in ADAPT_TUPLE_VALUES:
+            yield case_v(tt, v)
     # forward-referenced Instance("Name") alternatives inside compounds: multi-step histories with assignments
     # before and after the class is resolved, either path first (stateful: implementation + oracle only)
     for _ in range(ncomp // 8):
@@ -94,6 +106,13 @@ def generate(rng, tier):
             yield case_v(tt, V.random_value_for(rng, tt, L))
 
 
+SUPPORTS = ["(Supports (u 2) 0)", "(Supports (u 2) 1)", "(AdaptsTo (u 2) 0)", "(AdaptsTo (u 2) 1)",
+            "(Tuple (Supports (u 2) 0) Int)", "(Either 0 Str (Supports (u 2) 0))"]
+ADAPT_TUPLES = ["(Tuple (Instance (u 2) 0 1 N) Int)", "(Tuple (Instance (u 2) 1 2 N) Int)", "(Tuple (Instance (u 2) 0 0 N) Int)",
+                "(Tuple (Either 0 Str (Instance (u 2) 0 1 N)) Int)", "(Tuple (Union (Instance (u 2) 0 2 N) Str) Int)",
+                "(Tuple Int (Base (Instance (u 2) 0 1 N)))"]
+ADAPT_TUPLE_VALUES = (["(t %s (i 1))" % x for x in V.INST_VALUES] + ["(t (i 1) %s)" % x for x in V.INST_VALUES]
+                      + ["(ts %s (i 1))" % x for x in V.INST_FALSY[:3]])
 FWD_FAST = ["Int", "Str", "Float", "Bool", "(RangeF 0 8 0 0)", "(Enum (i 1) (s a))"]
 FWD_SLOW = ["(RangeI 0 2 0 0)", "(Base Int)", "(String 1 3 N)"]
 FWD_VALUES = ["(inst 6 (6) () 11)", "(inst 6 (6) () 12)", "(inst 7 (7 6) () 13)", "N", "(i 3)", "(i 1)", "(f 10)", "(s a)",
@@ -294,12 +313,32 @@ def differential(tterm, value, ctx, obj):
     if head in ("Instance", "InstanceH") and value is None and kind == "py-rejects-fast-accepts":
         # allow_none=False, but None is an instance of the class (object, NoneType)
         return [("instance-none-is-instance-of-class", what)], fast, py
+    am = adapt_mode(tterm)
+    if am is not None and vterm[0] == "inst":
+        # adaptation took part: name the falsy party (an adapter / adaptee that defines __bool__ or __len__)
+        own, adapter = V.inst_flavours(int(vterm[1]))
+        got_adapter = any(isinstance(r, ctx.classes[9]) for r in (fr, pr))
+        if adapter and got_adapter:
+            return [("adapt-falsy-adapter:fast-vs-python:%s" % am, what + " (the adapter object is falsy: %s)" % V.FLAVOURS[adapter])], fast, py
+        if own:
+            return [("adapt-falsy-adaptee:fast-vs-python:%s" % am, what + " (the assigned object is falsy: %s)" % V.FLAVOURS[own])], fast, py
     if head == "CoerceH":
         # two root causes: isinstance (C) against `type(value) is` (Python), and the
         # CoercableTypes tuples that list the coercible types as as-is types
         cause = "coerce-python-compares-exact-types" if kind == "py-rejects-fast-accepts" else "coerce-fast-skips-conversion"
         return [(cause, what)], fast, py
     return [("%s:%s:%s" % (kind, hd, vc), what)], fast, py
+
+
+def adapt_mode(tterm):
+    """'yes' / 'default' / 'supports' / 'adaptsto' for a trait term whose validation calls adapt(), else None."""
+    if isinstance(tterm, list) and tterm[0] == "Base":
+        return adapt_mode(tterm[1])
+    if isinstance(tterm, list) and tterm[0] == "Instance" and tterm[3] in ("1", "2"):
+        return V.ADAPT[int(tterm[3])]
+    if isinstance(tterm, list) and tterm[0] in ("Supports", "AdaptsTo"):
+        return tterm[0].lower()
+    return None
 
 
 def first_non_traiterror(outs):
@@ -327,6 +366,11 @@ def run_v1(env, tt, v):
     head = tterm[0] if isinstance(tterm, list) else tterm
     tags.add("trait:" + (head if head != "Base" else "Base" + (tterm[1] if isinstance(tterm[1], str) else tterm[1][0])))
     tags.add("value:" + V.value_class(vterm).split(":")[0])
+    if "(Instance" in tt or "(Supports" in tt or "(AdaptsTo" in tt:
+        for sv in V.sub_values(vterm, []):
+            if isinstance(sv, list) and sv[0] == "inst":
+                own, adapter = V.inst_flavours(int(sv[1]))
+                tags.add("adaptation:object-%s:adapter-%s" % (V.FLAVOURS[own], V.FLAVOURS[adapter] if int(sv[1]) == 4 or int(sv[1]) >= 40 else "none"))
     fast = cmp_ = py = "-"
     fr = None
     if p.fv is not None:
